@@ -667,6 +667,24 @@ class SymEx:
                         if lv[0][0] not in ('local', 'flocal'):
                             st.events.append(Event('write', lv=lv, term=newv, line=call.line, bb=bb, frame=st.fid, defp=body.defp))
                         modelled = True
+                # std::mem::replace / swap: exact effect on the places (the contract of the two functions)
+                override_val = None
+                if gen in ('std::mem::replace', 'core::mem::replace') and len(args) == 2 and args[0][0] == 'mref':
+                    lv = args[0][1]
+                    override_val = st.read(lv[0], lv[1])
+                    st.write(lv[0], lv[1], args[1])
+                    if lv[0][0] not in ('local', 'flocal'):
+                        st.events.append(Event('write', lv=lv, term=args[1], line=call.line, bb=bb, frame=st.fid, defp=body.defp))
+                    modelled = True
+                if gen in ('std::mem::swap', 'core::mem::swap') and len(args) == 2 and args[0][0] == 'mref' and args[1][0] == 'mref':
+                    l1, l2 = args[0][1], args[1][1]
+                    v1, v2 = st.read(l1[0], l1[1]), st.read(l2[0], l2[1])
+                    st.write(l1[0], l1[1], v2)
+                    st.write(l2[0], l2[1], v1)
+                    for lv_, nv_ in ((l1, v2), (l2, v1)):
+                        if lv_[0][0] not in ('local', 'flocal'):
+                            st.events.append(Event('write', lv=lv_, term=nv_, line=call.line, bb=bb, frame=st.fid, defp=body.defp))
+                    modelled = True
                 # callee may write through every &mut it receives
                 for a, aop in zip(args, t['args']) if not modelled else []:
                     if a[0] == 'mref':
@@ -675,7 +693,7 @@ class SymEx:
                         p = op_place(aop)
                         if p is not None and not p['p'] and body.local_ty(p['l']).startswith('&mut '):
                             st.havoc(('ptr', a), (), site)
-                val = ('call', name, args, site)
+                val = ('call', name, args, site) if override_val is None else override_val
                 # an iterator over an Option yields at most once: `for x in opt.iter_mut()` is `if let Some(x) = opt.as_mut()`
                 lastn = name.split('::')[-1]
                 if 'option::Option' in name and lastn in ('iter_mut', 'iter') and len(args) == 1:
